@@ -92,6 +92,27 @@ theorem qef_solveBounded_in_box (solver : Solver α) (q : QEF n α) (region : Re
   solveBounded_in_box 0 _ _ _
     (fun nb _ h => corner_contained solver q _ hwf tpos tval nb h) he
 
+/-- **solveBounded_in_box without the comparability hypothesis.**  `F` is any notion of
+    "finite scalar" preserved by `+ − *` and comparing `< +inf` (for doubles: `isfinite`, absent
+    overflow).  If the accumulated matrices and the shrunk region's bounds are finite, the region
+    is well-formed, and the inner solver returns a finite distance value for at least one
+    corner's 1×1 system, then the returned position is contained — for every solver, every target.
+    Conversely the hypothesis of `qef_solveBounded_in_box` can only fail through a non-finite
+    matrix entry (non-finite sample position/value — normals are sanitised by `insert` — or
+    overflow), a non-finite box bound, or a non-finite solver output (e.g. a NaN `target_value`
+    passed to the 4-argument overload). -/
+theorem qef_solveBounded_in_box_finite (F : FinArith α) (solver : Solver α) (q : QEF n α)
+    (region : Region n α) (shrink : α) (tpos : Fin n → α) (tval : α)
+    (hwf : (region.shrink shrink).WF) (hq : q.Finite F)
+    (hr : ∀ i, F.fin ((region.shrink shrink).lower i) ∧ F.fin ((region.shrink shrink).upper i))
+    (hs : ∃ nb, nb < 3 ^ n ∧ nbDim n nb = 0 ∧
+      F.fin ((solver (freeAxes n nb).length (q.reducedAtA nb) (q.reducedAtB (region.shrink shrink) nb)
+        (reducedTarget nb tpos tval)).value (Fin.last _))) :
+    (region.shrink shrink).contains (q.solveBounded solver region shrink tpos tval).position = true := by
+  obtain ⟨nb, h1, h2, h3⟩ := hs
+  exact qef_solveBounded_in_box solver q region shrink tpos tval hwf
+    ⟨nb, h1, h2, corner_error_lt_inf F solver q _ tpos tval nb h2 hq hr h3⟩
+
 /-- **candidate_on_face.** Every `solveConstrained<nb>` candidate, for every solver: on each axis
     the neighbour fixes, the position is *exactly* the face coordinate
     (`pos & (1<<i) ? upper(i) : lower(i)`) and the `constrained` flags are exactly the fixed axes. -/
@@ -229,6 +250,21 @@ theorem reduced_system_optimal (fin : K → Bool) {q : QEF n K} {l : List (Sampl
     q.errorV v ≤ q.errorV v' :=
   h.reduced_optimal region nb v v' hv hv' hsol
 
+/-- **candidate_minimises_on_face.** For a QEF built by `insert`/`+=` and ANY inner solver: if the
+    solver's output solves the reduced system of subspace `nb` exactly, the candidate returned by
+    `solveConstrained<nb>` (face coordinates on the fixed axes, the solver's components placed
+    by the unpacking loop on the floating axes, its last component as value) has the smallest
+    error among all `(x', w')` whose fixed axes lie on that face. -/
+theorem candidate_minimises_on_face (fin : K → Bool) {q : QEF n K} {l : List (Sample n K)}
+    (h : Built fin q l) (solver : Solver K) (region : Region n K) (nb : Nat) (tpos : Fin n → K)
+    (tval : K)
+    (hexact : ∀ r, (∑ c, q.reducedAtA nb r c *
+        (solver (freeAxes n nb).length (q.reducedAtA nb) (q.reducedAtB region nb)
+          (reducedTarget nb tpos tval)).value c) = q.reducedAtB region nb r)
+    (x' : Fin n → K) (w' : K) (hx' : ∀ i : Fin n, nbFixed nb i.val = true → x' i = region.face nb i) :
+    (q.solveConstrained solver region nb tpos tval).error ≤ q.error x' w' :=
+  h.candidate_optimal solver region nb tpos tval hexact x' w' hx'
+
 /-- **shrink_inside.** For `0 ≤ shrink ≤ 1` the shrunk region of a well-formed box is a
     well-formed sub-box, so a position contained in it is contained in the cell. -/
 theorem shrink_inside (r : Region n K) (p : K) (hb : ∀ i, r.lower i ≤ r.upper i) (hp0 : 0 ≤ p)
@@ -281,7 +317,19 @@ example : ∀ nb, nb < 3 ^ 1 →
     QOrd.lt (exQ.solveConstrained exSolver (exRegion.shrink 1) nb (fun _ => 20) 0).error QOrd.inf = true := by
   decide
 example : (exQ.solveBounded exSolver exRegion 1 (fun _ => 20) 0).position 0 = 10 := by decide
-example : (exRegion.shrink 1).contains (exQ.solve exSolver (fun _ => 5) 0).position = true := by decide
+-- hypotheses of `qef_solveBounded_in_box_finite` with `F = extFinArith`
+example : exQ.Finite extFinArith := by
+  have h : ∀ i j : Fin 2, (exQ.AtA i j).isFin = true ∧ (exQ.AtBp i j).isFin = true ∧
+      (exQ.BptBp i j).isFin = true := by decide
+  exact fun i j => ⟨extFin_of_isFin (h i j).1, extFin_of_isFin (h i j).2.1, extFin_of_isFin (h i j).2.2⟩
+example : ∀ i, extFinArith.fin ((exRegion.shrink 1).lower i) ∧ extFinArith.fin ((exRegion.shrink 1).upper i) := by
+  have h : ∀ i : Fin 1, ((exRegion.shrink 1).lower i).isFin = true ∧ ((exRegion.shrink 1).upper i).isFin = true := by
+    decide
+  exact fun i => ⟨extFin_of_isFin (h i).1, extFin_of_isFin (h i).2⟩
+example : ∃ nb, nb < 3 ^ 1 ∧ nbDim 1 nb = 0 ∧
+    extFinArith.fin ((exSolver (freeAxes 1 nb).length (exQ.reducedAtA nb) (exQ.reducedAtB (exRegion.shrink 1) nb)
+      (reducedTarget nb (fun _ => 20) 0)).value (Fin.last _)) :=
+  ⟨0, by decide, by decide, extFin_of_isFin (by decide)⟩
 
 -- `error_sum_of_squares`: `Built` is inhabited beyond the empty QEF
 example : Built (fun _ : ℚ => true) ((QEF.empty 1).insert (fun _ => true)
@@ -292,6 +340,15 @@ example : Built (fun _ : ℚ => true) ((QEF.empty 1).insert (fun _ => true)
 example : ∃ (region : Region 1 ℚ) (v : Fin 2 → ℚ),
     ∀ i : Fin 1, nbFixed 1 i.val = true → v i.castSucc = region.face 1 i :=
   ⟨{ lower := fun _ => 0, upper := fun _ => 1 }, fun _ => 1, fun i _ => by simp [Region.face, nbUpper, nbDigit]⟩
+-- `candidate_minimises_on_face`: the exactness hypothesis is satisfiable (trivially so for the empty
+-- QEF, whose reduced systems are `0·x = 0`, with any solver, in any dimension)
+example (solver : Solver ℚ) (region : Region 2 ℚ) (nb : Nat) (t : Fin 2 → ℚ) :
+    ∀ r, (∑ c, (QEF.empty 2 : QEF 2 ℚ).reducedAtA nb r c *
+        (solver (freeAxes 2 nb).length ((QEF.empty 2 : QEF 2 ℚ).reducedAtA nb)
+          ((QEF.empty 2 : QEF 2 ℚ).reducedAtB region nb) (reducedTarget nb t 0)).value c) =
+      (QEF.empty 2 : QEF 2 ℚ).reducedAtB region nb r := by
+  intro r
+  simp [QEF.reducedAtA, QEF.reducedAtB, QEF.empty, QEF.AtB, sumFin_eq_sum]
 -- `shrink_inside`
 example : ∃ (r : Region 1 ℚ) (p : ℚ), (∀ i, r.lower i ≤ r.upper i) ∧ 0 ≤ p ∧ p ≤ 1 :=
   ⟨{ lower := fun _ => 0, upper := fun _ => 1 }, 1 / 2, by intro i; norm_num, by norm_num, by norm_num⟩
